@@ -184,26 +184,24 @@ def _convert_ifexp(node: ast.IfExp) -> libsbml.ASTNode:
 def _convert_direct_call(node: ast.Call) -> libsbml.ASTNode:
     func = cast(ast.Name, node.func).id
 
-    if (typ := UNARY.get(func)) is not None:
+    if (typ := UNARY.get(func)) is not None and len(node.args) == 1:
         sbml_node = libsbml.ASTNode(typ)
         sbml_node.addChild(_convert_node(node.args[0]))
         return sbml_node
-    if (typ := BINARY.get(func)) is not None:
+    if (typ := BINARY.get(func)) is not None and len(node.args) == 2:
         sbml_node = libsbml.ASTNode(typ)
         sbml_node.addChild(_convert_node(node.args[0]))
         sbml_node.addChild(_convert_node(node.args[1]))
         return sbml_node
-    if (typ := NARY.get(func)) is not None:
+    if (typ := NARY.get(func)) is not None and len(node.args) > 0:
         sbml_node = libsbml.ASTNode(typ)
         for arg in node.args:
             sbml_node.addChild(_convert_node(arg))
         return sbml_node
 
-    # General function call
-    sbml_node = libsbml.ASTNode(libsbml.AST_FUNCTION)
-    for arg in node.args:
-        sbml_node.addChild(_convert_node(arg))
-    return sbml_node
+    # SBML has no node for a call of an arbitrary python function
+    msg = f"{func} with {len(node.args)} arguments"
+    raise NotImplementedError(msg)
 
 
 def _convert_library_call(node: ast.Call) -> libsbml.ASTNode:
@@ -212,30 +210,31 @@ def _convert_library_call(node: ast.Call) -> libsbml.ASTNode:
     attr = func.attr
 
     if parent in ("math", "np", "numpy"):
-        if (typ := UNARY.get(attr)) is not None:
+        if (typ := UNARY.get(attr)) is not None and len(node.args) == 1:
             sbml_node = libsbml.ASTNode(typ)
             sbml_node.addChild(_convert_node(node.args[0]))
             return sbml_node
-        if (typ := BINARY.get(attr)) is not None:
+        if (typ := BINARY.get(attr)) is not None and len(node.args) == 2:
             sbml_node = libsbml.ASTNode(typ)
             sbml_node.addChild(_convert_node(node.args[0]))
             sbml_node.addChild(_convert_node(node.args[1]))
             return sbml_node
-        if (typ := NARY.get(attr)) is not None:
+        if (typ := NARY.get(attr)) is not None and len(node.args) > 0:
             sbml_node = libsbml.ASTNode(typ)
             for arg in node.args:
                 sbml_node.addChild(_convert_node(arg))
             return sbml_node
 
-    # General library call
-    sbml_node = libsbml.ASTNode(libsbml.AST_FUNCTION)
-    for arg in node.args:
-        sbml_node.addChild(_convert_node(arg))
-    return sbml_node
+    # SBML has no node for a call of an arbitrary python function
+    msg = f"{parent}.{attr} with {len(node.args)} arguments"
+    raise NotImplementedError(msg)
 
 
 def _convert_call(node: ast.Call) -> libsbml.ASTNode:
     func = node.func
+    if len(node.keywords) > 0:
+        msg = "Keyword arguments in function calls"
+        raise NotImplementedError(msg)
     if isinstance(func, ast.Name):
         return _convert_direct_call(node)
     if isinstance(func, ast.Attribute):
